@@ -27,6 +27,20 @@ void operator delete[](void* p) { if(p) ++nDel; free(p); }
 void* operator new(usize size) { return operator new[](size); }
 void operator delete(void* p) { operator delete[](p); }
 
+// element type with distinguishable equal keys: `<` looks at the key only, so the arrangement after sort() shows
+// exactly which value swaps the quicksort performed
+struct Tagged
+{
+  int k, tag;
+  Tagged() : k(0), tag(0) {}
+  Tagged(int k, int tag) : k(k), tag(tag) {}
+  bool operator<(const Tagged& o) const { return k < o.k; }
+  bool operator==(const Tagged& o) const { return k == o.k && tag == o.tag; }
+  bool operator!=(const Tagged& o) const { return !(*this == o); }
+};
+static List<Tagged>* tl;
+alignas(List<Tagged>) static unsigned char tmem[sizeof(List<Tagged>)];
+
 typedef List<int> L;
 typedef PoolList<int> P;
 typedef Array<int> A;
@@ -47,6 +61,7 @@ static void resetAll()
     if(pv[i]) pv[i]->~P();
     if(av[i]) av[i]->~A();
     lv[i] = new(lmem[i]) L;
+    if(i == 0) { if(tl) tl->~List<Tagged>(); tl = new(tmem) List<Tagged>; }
     pv[i] = new(pmem[i]) P;
     av[i] = new(amem[i]) A;
   }
@@ -199,6 +214,20 @@ int main()
       for(int i = 0; i < NV; ++i) showList("l", i, *lv[i]);
       for(int i = 0; i < NV; ++i) showList("p", i, *pv[i]);
       for(int i = 0; i < NV; ++i) showArray(i, *av[i]);
+      hxEndLine();
+      continue;
+    }
+    if(op[0] == 't')
+    {
+      if(hxIs(l, "tappend", 2)) tl->append(Tagged((int)hxInt(l, 1), (int)hxInt(l, 2)));
+      else if(hxIs(l, "tprepend", 2)) tl->prepend(Tagged((int)hxInt(l, 1), (int)hxInt(l, 2)));
+      else if(hxIs(l, "tsort", 0)) tl->sort();
+      else if(hxIs(l, "tclear", 0)) tl->clear();
+      else { printf("bad-op"); hxEndLine(); continue; }
+      printf("t %lu ", (unsigned long)tl->size());
+      if(tl->isEmpty()) printf("-");
+      size_t i = 0;
+      for(List<Tagged>::Iterator it = tl->begin(); it != tl->end(); ++it, ++i) printf(i ? ",%d:%d" : "%d:%d", it->k, it->tag);
       hxEndLine();
       continue;
     }
